@@ -14,6 +14,7 @@ import (
 
 	"verif/harness/canon"
 	"verif/harness/rt"
+	"verif/harness/srv"
 	"verif/harness/xport"
 )
 
@@ -38,6 +39,9 @@ type c14Case struct {
 	Style   string `json:"style"`        // eof | eof-with-data | reset | timeout
 	ReadTimeout int `json:"packet_read_timeout"`
 	Chunk   string `json:"chunking"` // "one" | "per-packet" : how the delivered prefix is handed to Read
+	// Prelude: a complete earlier response was delivered and consumed on the
+	// channel before the response that is cut off by the fault
+	Prelude bool `json:"second_response_on_channel,omitempty"`
 }
 
 func c14Err(style string) error {
@@ -90,6 +94,18 @@ func c14Run(c *Ctx, cs c14Case, ref []string) {
 		return
 	}
 	defer k.teardown()
+	if cs.Prelude {
+		first := append(srv.ReturnStatus(77), srv.Done(srv.TokDone, srv.DoneCount, 0, 1)...)
+		k.tr.Feed(xport.Packet(byte(tds.TDS_BUF_RESPONSE), xport.EOM, 0, first))
+		if !awaitIdle(k.tr, 30*time.Second) {
+			r.Inconclusive("prelude response not processed")
+			return
+		}
+		if d := drainChannel(k.ch, k.ctx); len(d.Dumps) != 3 || len(d.Errs) != 0 {
+			r.Violate("prelude-response-wrong"+"/"+cs.Style, fmt.Sprintf("the complete earlier response delivered %v / %v", d.Types, d.Errs), cs)
+			return
+		}
+	}
 	// deliver stream[:Offset], then the fault
 	prefix := stream[:cs.Offset]
 	if cs.Chunk == "per-packet" {
@@ -152,7 +168,7 @@ func c14Run(c *Ctx, cs c14Case, ref []string) {
 	}
 	r.SetAdd("reader_states_at_fault", stClass+"/"+cs.Style)
 	if cs.Offset > 0 && cs.Offset < len(stream) {
-		r.Distinct(fmt.Sprintf("%s|%v|%d|%s|%d", cs.Resp, cs.Cuts, cs.Offset, cs.Style, cs.ReadTimeout))
+		r.Distinct(fmt.Sprintf("%s|%v|%d|%s|%d|%v", cs.Resp, cs.Cuts, cs.Offset, cs.Style, cs.ReadTimeout, cs.Prelude))
 	}
 	// minimum and maximum number of deliverable packages
 	minPk, maxPk := 0, 0
@@ -361,6 +377,7 @@ func runC14(c *Ctx) {
 					cs := base
 					cs.Offset, cs.Style = off, st
 					cs.Chunk = []string{"one", "per-packet"}[off%2]
+					cs.Prelude = off%4 == 3
 					jobs = append(jobs, job{cs, refOut.d.Dumps})
 				}
 			}
